@@ -1133,6 +1133,35 @@ impl World {
             if enc.count() != targets.len() {
                 return self.fail(&["C13", "C18"], "xenc-count-accessor", "XEnc::count() differs from the number of targets".into());
             }
+            // [C11] ML-KEM ciphertexts are bound into the tag: altering one must make authorized keys fail
+            if hybrid && self.focus == "C11" {
+                let me = MEnc { targets: targets.clone(), hybrid, policy: String::new(), mpk_index: mi };
+                if let Some(ui) = self.usks.iter().position(|u| opens(&u.m, &me)) {
+                    let mut w2 = wx.clone();
+                    let k = (bytes.len() * 7) % w2.encs.len();
+                    let pos = (bytes[3] as usize * 13) % wire::CT;
+                    w2.encs[k].0[pos] ^= 0x10;
+                    if let Ok(m) = de::<XEnc>(&w2.encode()) {
+                        self.count("mlkem-ct-binding-probe");
+                        if let Ok(Some(_)) = self.cc.decaps(&self.usks[ui].key, &m) {
+                            return self.fail(&["C11", "C07"], "mlkem-ciphertext-not-bound", format!("encapsulation for {}: flipping a bit of an ML-KEM ciphertext still lets an authorized key obtain a secret", dnf_str(dnf)));
+                        }
+                        self.events.insert("mlkem-binding-probed");
+                    }
+                }
+            }
+            if hybrid {
+                self.events.insert("hybridized-enc");
+            }
+            if targets.len() > 1 {
+                let flavours: BTreeSet<bool> = targets.iter().filter_map(|(r, rev)| self.m.rights.get(r).and_then(|c| c.iter().find(|m| m.id == *rev)).map(|m| m.hybrid)).collect();
+                if flavours.len() > 1 {
+                    self.events.insert("multi-target-mixed-flavours");
+                }
+            }
+            if self.events.contains("rekeyed") && targets.iter().any(|(r, _)| self.m.rights.get(r).map(|c| c.len() > 1 && c[0].hybrid).unwrap_or(false)) {
+                self.events.insert("hybrid-flavour-observed-after-rekey");
+            }
             // feature events
             if targets.len() > 1 {
                 self.events.insert("multi-target-enc");
@@ -1224,13 +1253,37 @@ impl World {
         if let Err(e) = crate::props::c17::tracing_relation(&wm, &id) {
             return self.fail(&["C17"], "tracing-relation-violated", format!("user key #{idx}: {e}"));
         }
+        // tracing points embedded in the user key and in the public keys = public tracers of the master key
+        let pts: Vec<Vec<u8>> = wm.tracers.iter().map(|(_, p)| p.clone()).collect();
+        if let Ok(b) = ser(&self.usks[idx].key) {
+            if let Ok(wu) = WUsk::decode(&b) {
+                if wu.ps != pts {
+                    return self.fail(&["C17"], "usk-tracing-points-differ", format!("user key #{idx}: embedded tracing points differ from the master key's public tracers"));
+                }
+            }
+        }
+        let last = self.mpks.len() - 1;
+        if let Ok(b) = ser(&self.mpks[last].0) {
+            if let Ok(wp) = WMpk::decode(&b) {
+                if wp.tpk != pts {
+                    return self.fail(&["C17"], "mpk-tracing-points-differ", "latest public key: tracing points differ from the master key's public tracers".into());
+                }
+            }
+        }
+        self.count("tracing-relation-checked");
+        if self.usks[idx].m.refreshed > 0 || self.events.contains("roundtrip") {
+            self.events.insert("tracing-checked-after-refresh-or-roundtrip");
+        }
         Ok(())
     }
 
     fn roundtrip(&mut self, what: u8, sel: u16) -> Step {
         match what % 4 {
             0 => {
-                let b = self.snapshot_msk()?;
+                let b = match ser_strict(&self.msk, "MasterSecretKey") {
+                    Ok(b) => b,
+                    Err(f) => return self.fail(&["C13"], &f.signature.clone(), f.message),
+                };
                 match de::<MasterSecretKey>(&b) {
                     Ok(k) => {
                         if k != self.msk {
@@ -1255,9 +1308,9 @@ impl World {
             }
             1 => {
                 let i = self.mpks.len() - 1;
-                let b = match ser(&self.mpks[i].0) {
+                let b = match ser_strict(&self.mpks[i].0, "MasterPublicKey") {
                     Ok(b) => b,
-                    Err(f) => return self.fail(&["C13"], "mpk-serialize-failed", f.message),
+                    Err(f) => return self.fail(&["C13"], &f.signature.clone(), f.message),
                 };
                 match de::<MasterPublicKey>(&b) {
                     Ok(k) => {
@@ -1275,9 +1328,9 @@ impl World {
                     return Ok(());
                 }
                 let i = pick(sel, self.usks.len());
-                let b = match ser(&self.usks[i].key) {
+                let b = match ser_strict(&self.usks[i].key, "UserSecretKey") {
                     Ok(b) => b,
-                    Err(f) => return self.fail(&["C13"], "usk-serialize-failed", f.message),
+                    Err(f) => return self.fail(&["C13"], &f.signature.clone(), f.message),
                 };
                 match de::<UserSecretKey>(&b) {
                     Ok(k) => {
@@ -1286,6 +1339,9 @@ impl World {
                         }
                         self.usks[i].key = k;
                         self.log(format!("round-trip user key #{i}"));
+                        self.events.insert("roundtrip");
+                        self.compare_usk(i)?;
+                        self.check_user_registered(i)?;
                     }
                     Err(e) => return self.fail(&["C13"], "roundtrip-deserialize-failed:usk", e),
                 }
@@ -1295,9 +1351,9 @@ impl World {
                     return Ok(());
                 }
                 let i = pick(sel, self.encs.len());
-                let b = match ser(&self.encs[i].enc) {
+                let b = match ser_strict(&self.encs[i].enc, "XEnc") {
                     Ok(b) => b,
-                    Err(f) => return self.fail(&["C13"], "xenc-serialize-failed", f.message),
+                    Err(f) => return self.fail(&["C13"], &f.signature.clone(), f.message),
                 };
                 match de::<XEnc>(&b) {
                     Ok(k) => {
